@@ -59,9 +59,22 @@ def gen_order(rnd, rules, rev, depth=0):
     if depth == 0 and rnd.chance(70):
         out.append(orule(["zzzfirst"]))
     plain = []
+    seen_heads = set()
     for r in chosen:
-        toks = [r["toks"][0]] if rnd.chance(60) else [t for t in r["toks"] if t != "~"]
-        ch = gen_order(rnd, r["children"], rev, depth + 1) if r["children"] and rnd.chance(70) else []
+        # sibling ordering rules must have pairwise disjoint languages (the property's domain): rules sharing their first word get ONE
+        # ordering entry, on that word alone, with the children of all of them
+        head = r["toks"][0]
+        if head in seen_heads:
+            continue
+        seen_heads.add(head)
+        group = [x for x in heads if x["toks"][0] == head]
+        if len(group) > 1:
+            toks = [head]
+            kids = [c for x in group for c in x["children"]]
+        else:
+            toks = [head] if rnd.chance(60) else [t for t in r["toks"] if t != "~"]
+            kids = r["children"]
+        ch = gen_order(rnd, kids, rev, depth + 1) if kids and rnd.chance(70) else []
         out.append(orule(toks, ch))
         plain.append(toks)
     # pinned entries repeat the plain entry's words exactly (same specificity), so that which of the two governs a removal does not
@@ -107,7 +120,9 @@ def _gen_case(rnd):
     order = gen_order(rnd, rules, from_registry_rev)
     old = RL.gen_tree(rnd, ctx)
     new = RL.mutate(rnd, ctx, old) if rnd.chance(60) else RL.gen_tree(rnd, ctx)
-    return {"kind": "gen", "vendor": vendor, "rules": rules, "order": order, "old": RL.plain(old), "new": RL.plain(new)}
+    # a mixed fleet: the same rulebook texts were compiled for a device of another vendor earlier in the process
+    prior = rnd.choice([v for v in VENDORS + ["juniper"] if v != vendor]) if rnd.chance(40) else None
+    return {"kind": "gen", "vendor": vendor, "rules": rules, "order": order, "old": RL.plain(old), "new": RL.plain(new), "prior": prior}
 
 
 CFG_VENDORS = ["huawei", "cisco", "arista", "nexus", "juniper", "iosxr", "aruba", "b4com", "pc", "routeros", "h3c", "optixtrans"]
@@ -200,7 +215,7 @@ def _check_level(pt, olist, ctx, rev, path, labels, det):
         if child is not None and direct:
             cl = ctx.classify(row)
             if cl is not None:
-                _check_level(child, children, ctx.child(cl[0]), rev, path + (row,), labels, det)
+                _check_level(child, children, ctx.child(cl[0], row), rev, path + (row,), labels, det)
 
 
 def _gen(case):
@@ -210,9 +225,12 @@ def _gen(case):
     rev, exitw = sut.vendor_words(vendor)
     ctx = RL.Ctx(rules)
     otext = "\n".join(order_lines(case["order"])) + "\n"
+    labels = ["gen", "vendor:" + vendor]
+    if case.get("prior"):
+        sut.make_rb(RL.rule_text(rules), case["prior"], ordering_text=otext)
+        labels.append("prior-vendor")
     rb = sut.make_rb(RL.rule_text(rules), vendor, ordering_text=otext)
     old, new = RL.to_odict(case["old"]), RL.to_odict(case["new"])
-    labels = ["gen", "vendor:" + vendor]
     d, pt = sut.diff_and_patch(vendor, old, new, rb)
     det = {"rulebook": RL.rule_text(rules), "ordering": otext, "patch": [list(p) for p in _paths(pt)]}
     _check_level(pt, [dict(r, _src="l") for r in case["order"]], ctx, rev, (), labels, det)
